@@ -353,6 +353,10 @@ func (c *caseEnv) observe(b *bed.Bed, u *bed.User, when string) *Obs {
 		c.fail("%s: %v", when, err)
 	}
 
+	if err := checkRowsHaveFiles(o); err != nil {
+		c.fail("%s: %v", when, err)
+	}
+
 	for _, bx := range o.Boxes {
 		if c.gen != nil {
 			c.gen.raise(bx.Validity)
